@@ -6,18 +6,8 @@ from collections import Counter
 
 from lib import vf, gensrv
 
-MODELS = """models:
-  Int32: {model: github.com/99designs/gqlgen/graphql.Int32}
-  Int64: {model: github.com/99designs/gqlgen/graphql.Int64}
-  Uint: {model: github.com/99designs/gqlgen/graphql.Uint}
-  Uint32: {model: github.com/99designs/gqlgen/graphql.Uint32}
-  Uint64: {model: github.com/99designs/gqlgen/graphql.Uint64}
-  IntID: {model: github.com/99designs/gqlgen/graphql.IntID}
-  UintID: {model: github.com/99designs/gqlgen/graphql.UintID}
-  MyID: {model: github.com/99designs/gqlgen/graphql.ID}
-  MapIn: {model: "map[string]interface{}"}
-"""
-# GraphQL scalar name -> binding, as configured above (the tie compares the Go kinds by reflection)
+# the scalar / map / hand-written model bindings of the probe are in go/probes/coerce/extra.yml.tmpl
+# GraphQL scalar name -> binding, as configured there (the tie compares the Go kinds by reflection)
 SCALARS = {"Int": "int", "Float": "float", "String": "string", "Boolean": "bool", "ID": "id", "Int32": "int32",
            "Int64": "int64", "Uint": "uint", "Uint32": "uint32", "Uint64": "uint64", "IntID": "intID",
            "UintID": "uintID", "MyID": "id", "Any": "any"}
@@ -82,8 +72,23 @@ def canon(s):
     return re.sub(r"F\(([^)]*)\)", lambda m: go_g(float(m.group(1))), s)
 
 
-def impl_outcome(case, res):
-    """the implementation's observable outcome in the model's vocabulary"""
+def data_at(data, path):
+    """the response value at a response path (a/0/b), None when absent or null"""
+    cur = data
+    for seg in path.split("/"):
+        if isinstance(cur, list):
+            cur = cur[int(seg)] if seg.isdigit() and int(seg) < len(cur) else None
+        elif isinstance(cur, dict):
+            cur = cur.get(seg)
+        else:
+            return None
+    return cur
+
+
+def impl_outcome(case, res, methods=None):
+    """the implementation's observable outcome in the model's vocabulary. `methods`: {(obj, field): schema entry} of
+    the fields bound to a method of the hand-written model; such a method answers the rendering of what its
+    parameters received (universal.C02Recv) - without a context that answer is the only observation."""
     if res.get("crash"):
         return ("gate", "panic", res["crash"])
     if res.get("gateErrors"):
@@ -93,10 +98,18 @@ def impl_outcome(case, res):
         return ("gate", "validation", e["message"])
     steps = {}
     errs = res["payloads"][0]["errors"] if res["payloads"] else []
+    data = res["payloads"][0].get("data") if res["payloads"] else None
     for f in case["model"]["fields"]:
         p = f["path"]
         inv = [i for i in res["log"] if i["path"] == p and i["hook"] == "resolver"]
         er = [e for e in errs if e["path"] == p or e["path"].startswith(p + "/")]
+        m = (methods or {}).get((f["obj"], f["field"]))
+        if m is not None:
+            answered = data_at(data, p)
+            if not m.get("hasCtx"):
+                inv = [{"args": answered}] if isinstance(answered, str) else []
+            elif inv and answered != inv[0].get("args", ""):
+                inv = [{"args": "logged %r but answered %r" % (inv[0].get("args", ""), answered)}]
         if inv and not er:
             steps[p] = ("call", inv[0].get("args", ""))
         elif er and not inv:
@@ -174,17 +187,33 @@ def run(ctx):
         "Go type shapes (pointer / slice / Omittable / struct / map) are derived by the model's shapeRef/shapeField and compared with reflection over the generated package on every run",
         "resolver invocation and error reporting are observed through the universal resolver's log and the response's errors[]; the execution model around a field is C01's",
     ]
-    ok_extract = ctx.extract("IntCasts", "ScalarArms")
-    proved = ok_extract and ctx.prove(props=["GqlgenVerif.Props.C02"])
+    ok_extract = ctx.extract("IntCasts", "ScalarArms", "BindArgs")
+    proved = ok_extract and ctx.prove(props=["GqlgenVerif.Props.C02", "GqlgenVerif.Props.C02Bind"])
     if ok_extract and not proved:
         ctx.cov["proof_failure"] = ctx.proof_failure
     quick = ctx.tier == "quick"
     cfgs = ["base", "inputopts", "noptr"] if quick else ["base", "inputopts", "noptr", "follow_funcsyn_wl2", "c02_omittable", "c02_retptr", "c02_argdirnull", "c02_nosfap"]
-    n_rand = 1500 if quick else 12000
+    n_rand = 1800 if quick else 14000
     for name, extra in (("c02_omittable", "nullable_input_omittable: true"), ("c02_retptr", "return_pointers_in_unmarshalinput: true"),
                         ("c02_argdirnull", "call_argument_directives_with_null: true"), ("c02_nosfap", "struct_fields_always_pointers: false")):
         gensrv.CONFIGS.setdefault(name, ("  filename: generated.go", extra))
-    built = gensrv.build_matrix(ctx, "coerce", cfgs, extra_yml=MODELS)
+    # second probe: fields bound to model methods whose permuted parameters have different Go types
+    mt_cfgs = ["base"] if quick else ["base", "inputopts", "noptr", "follow_funcsyn_wl2"]
+    from concurrent.futures import ThreadPoolExecutor
+    gensrv._gen_bin(ctx)
+    ctx.sync_gosum()
+
+    def build_one(pc):
+        try:
+            return gensrv.build_server(ctx, pc[0], pc[1])
+        except RuntimeError as e:
+            return e
+
+    jobs = [("coerce", c) for c in cfgs] + [("coercemt", c) for c in mt_cfgs]
+    with ThreadPoolExecutor(max_workers=6) as ex:
+        res_b = dict(zip(jobs, ex.map(build_one, jobs)))
+    built = {c: res_b[("coerce", c)] for c in cfgs}
+    built_mt = {c: res_b[("coercemt", c)] for c in mt_cfgs}
 
     dist = Counter()
     nontriv = set()
@@ -193,6 +222,7 @@ def run(ctx):
     samples = []
     unexplained = []
     dev_examples = {}
+    build_fail = []   # reported after the violations that carry a failing operation
 
     # ---- scalars: the real graphql.Unmarshal* / CoerceList in-process vs the model's `scalar`
     rc, so, se = ctx.harness("c02", ["-mode", "scalars"])
@@ -225,21 +255,50 @@ def run(ctx):
 
     # ---- generated servers
     hbin = os.path.join(vf.CACHE, "h_c02")
-    for cfg in cfgs:
-        b = built[cfg]
+    decl = {}
+    for probe in ("coerce", "coercemt"):
+        # the hand-written models of the probes as go/ast sees them (parameter NAMES; reflection has none)
+        rc, so, se = vf.sh([hbin, "-mode", "methods", "-file", os.path.join(vf.GO, "probes", probe, "meth.go.tmpl")], timeout=60)
+        if rc != 0:
+            raise RuntimeError("-mode methods failed: " + se[-2000:])
+        decl[probe] = json.loads(so)
+    runs = [("coerce", c, built[c], n_rand) for c in cfgs] + [("coercemt", c, built_mt[c], n_rand // 3) for c in mt_cfgs]
+    for probe, cfg, b, n_cases in runs:
+        cfg_label = cfg if probe == "coerce" else probe + "/" + cfg
         if isinstance(b, Exception):
-            ctx.violation({"kind": "generated-server-does-not-build", "config": cfg, "detail": str(b)[-3000:],
-                           "shape": {"config": cfg, "build": "fail"}})
+            build_fail.append({"kind": "generated-server-does-not-build", "config": cfg_label, "detail": str(b)[-3000:],
+                               "shape": {"config": cfg_label, "build": "fail"}})
             continue
         rc, so, se = vf.sh([b, "-mode", "c02schema"], timeout=120)
         if rc != 0:
             raise RuntimeError("c02schema failed: " + se[-2000:])
         sj = json.loads(so)
-        spath = os.path.join(vf.CACHE, "c02_schema_%s.json" % cfg)
-        open(spath, "w").write(so)
+        spath = os.path.join(vf.CACHE, "c02_schema_%s_%s.json" % (probe, cfg))
+        # fields bound to a method of the hand-written model: parameter names from the source, everything else
+        # (context, variadic, parameter types) by reflection - the two views must agree
+        methods = {}
+        for f in sj["fields"]:
+            if f.get("bound") != "method":
+                continue
+            d = decl[probe].get(f["obj"], {}).get(f["goMethod"])
+            total += 1
+            dist["method-signature"] += 1
+            if d is None or d["hasCtx"] != f.get("hasCtx", False) or d["variadic"] != f.get("variadic", False) \
+                    or len(d["params"]) != len(f.get("paramShapes", [])):
+                divs.append({"kind": "method-signature", "config": cfg_label, "where": "%s.%s" % (f["obj"], f["name"]),
+                             "source": d, "reflection": {k: f.get(k) for k in ("goMethod", "hasCtx", "variadic", "paramShapes")}})
+                continue
+            f["params"] = d["params"]
+            nb = len(f["args"]) if (d["variadic"] and len(d["params"]) > len(f["args"])) else len(d["params"])
+            for a in f["args"]:
+                idx = [i for i, pn in enumerate(d["params"][:nb]) if pn.lower() == a["name"].lower()]
+                a["shape"] = f["paramShapes"][idx[0]] if idx else None   # None: the method has no parameter for it
+            methods[(f["obj"], f["name"])] = f
+        open(spath, "w").write(json.dumps(sj))
         sj["scalars"] = SCALARS
         sj["cfg"] = CFG[cfg]
-        rc, so, se = vf.sh([hbin, "-mode", "gen", "-schema", spath, "-seed", str(ctx.seed), "-n", str(n_rand)], timeout=600)
+        cfg = cfg_label
+        rc, so, se = vf.sh([hbin, "-mode", "gen", "-schema", spath, "-seed", str(ctx.seed), "-n", str(n_cases)], timeout=600)
         if rc != 0:
             raise RuntimeError("case generation failed: " + se[-2000:])
         case_lines = [l for l in so.split("\n") if l]
@@ -263,6 +322,8 @@ def run(ctx):
         for f in sj["fields"]:
             for a in f["args"]:
                 k = "%s.%s.%s" % (f["obj"], f["name"], a["name"])
+                if a["shape"] is None:
+                    continue
                 total += 1
                 dist["shape"] += 1
                 if mshape.get(k) != a["shape"]:
@@ -281,7 +342,7 @@ def run(ctx):
             model = parse_model(outs[2 + 3 * i])
             spec0 = parse_model(outs[3 + 3 * i])
             specall = parse_model(outs[4 + 3 * i])
-            impl = impl_outcome(c, r)
+            impl = impl_outcome(c, r, methods)
             for t in c["tags"]:
                 dist[t] += 1
             dist["outcome:" + (impl[0] if impl[0] == "ran" else impl[0] + ":" + impl[1])] += 1
@@ -345,6 +406,8 @@ def run(ctx):
         ctx.violation(dict(u, shape={"deviation": "none", "class": u["class"]},
                            replay="config %s: %s variables %s -> implementation %s ; specification %s" % (
                                u["case"]["config"], u["case"]["query"], u["case"]["variables"], json.dumps(u["impl"])[:800], json.dumps(u["spec"])[:800])))
+    for bf in build_fail:
+        ctx.violation(bf)
     for d in divs[:40]:
         failing = False
         if d["kind"] == "scalar":
@@ -362,7 +425,7 @@ def run(ctx):
         "correspondence_divergences": len(divs),
         "spec_violations": len(unexplained),
         "deviation_examples": dev_examples,
-        "configs": cfgs,
+        "configs": cfgs + ["coercemt/" + c for c in mt_cfgs],
         "samples": samples,
     })
 
